@@ -1,9 +1,11 @@
 #!/usr/bin/env python3
 """Copies confirmed seeded changes from the sub-agents' scratch area into /verif/seeded and writes
-seeded/README.md.  usage: assemble_seeded.py <scratch dir with C*/change*/> <dir with final logs>"""
+seeded/README.md (from every meta.json present).
+usage: assemble_seeded.py <scratch dir with C*/change*/> <dir with final logs> [offset added to the change number]"""
 import json, os, re, shutil, sys
 V = os.path.dirname(os.path.dirname(os.path.abspath(__file__)))
 src, logs = sys.argv[1], sys.argv[2]
+offset = int(sys.argv[3]) if len(sys.argv) > 3 else 0
 rows = []
 for cid in sorted(os.listdir(src)):
     if not re.match(r'^C\d\d$', cid):
@@ -17,7 +19,7 @@ for cid in sorted(os.listdir(src)):
         ok = ('existing suite with the change: passes' in text and 'demo with the change: FAILS' in text
               and 'demo without the change: passes' in text)
         verdicts = re.findall(r'^(CAUGHT|MISSED|BROKEN) (C\d\d) (\w+)', text, re.M)
-        sid = 'S-%s-%s' % (cid, ch.replace('change', ''))
+        sid = 'S-%s-%d' % (cid, int(ch.replace('change', '')) + offset)
         out = os.path.join(V, 'seeded', sid)
         if not ok:
             print('not confirmed, skipped:', sid)
@@ -39,7 +41,12 @@ for cid in sorted(os.listdir(src)):
             'written_by': 'independent sub-agent given only the property text and its own worktree',
         }
         json.dump(meta, open(os.path.join(out, 'meta.json'), 'w'), indent=1)
-        rows.append((sid, cid, ', '.join('%s %s: %s' % (p, t, r) for r, p, t in verdicts), ' '.join(first)[:260]))
+for sid in sorted(os.listdir(os.path.join(V, 'seeded'))):
+    mp = os.path.join(V, 'seeded', sid, 'meta.json')
+    if os.path.exists(mp):
+        m = json.load(open(mp))
+        rows.append((sid, m['breaks_property'], ', '.join('%s %s: %s' % (c['property'], c['tier'], c['result']) for c in m['checks']),
+                     m['what_was_changed_and_what_it_needs'][:260]))
 with open(os.path.join(V, 'seeded', 'README.md'), 'w') as f:
     f.write('# Seeded changes\n\nEach directory holds a change to go-openapi/spec that breaks one property while compiling and passing the '
             'existing test suite (written by an independent sub-agent from the property text alone, confirmed with '
